@@ -3,7 +3,10 @@ use crate::CacheStats;
 use crate::EvictionPolicy;
 use dashmap::DashMap;
 use parking_lot::lock_api::MutexGuard;
+#[cfg(not(feature = "verif"))]
 use parking_lot::{Mutex, RawMutex};
+#[cfg(feature = "verif")]
+use crate::verif_sync::{Mutex, RawMutex};
 use std::collections::VecDeque;
 
 /// A thread-safe async global cache with configurable eviction policies and TTL support.
